@@ -99,14 +99,6 @@ func genLuaExec(seed uint64, tier, variant string) any {
 	if strings.HasPrefix(variant, "cluster") {
 		x.Shards = 2 + r.IntN(2)
 		x.Replicas = r.IntN(2) // at most 4 nodes in total (DESIGN.md 3.2: all are asked for the topology in one batch)
-		// The queue's herd yields (fb.put.send: every put of a flow buffer; ring.put.woken: puts that found the ring
-		// full) are identified by the command alone; on a cluster client the same SCRIPT LOAD goes to several nodes
-		// from worker goroutines at once, which would make those identities ambiguous: ring queues that cannot fill
-		// (>= 16 slots per connection for at most 6 tasks)
-		p.Opt.Queue = "ring"
-		if p.Opt.RingScale < 4 {
-			p.Opt.RingScale = 4
-		}
 	}
 	nodes := luaNodeCount(x)
 	faulty := r.IntN(2) == 0
@@ -430,11 +422,11 @@ func luaRun(t *testing.T, seed uint64, p *Plan, x luaX, out *Outcome) *luaEnv {
 				return
 			}
 		}
-		if ctx == nil && (site == "fb.put.send" || site == "ring.put.woken") {
-			// these sites have no context; their identity is the command alone, and two tasks running the same script
-			// send commands that agree in their first 48 bytes. Puts run on the task's own goroutine on a single-node
-			// client (and cluster plans use queues where these sites do not park workload commands): name the task.
-			ctx = sched.WithTask(context.Background(), identifyGoroutine())
+		if id := sched.TaskID(ctx); id != "" {
+			// Lock waits are identified by the waiting goroutine's name. ExecMulti's fan-out (util.ParallelVals) and
+			// the cluster client's DoMulti run one node on the caller's goroutine and the others on new goroutines, and
+			// which node gets the caller's is Go map order: every goroutine that works for a task carries its name.
+			nameGoroutine(id)
 		}
 		yield(ctx, site, obj, cmd)
 	}
@@ -449,12 +441,16 @@ func luaRun(t *testing.T, seed uint64, p *Plan, x luaX, out *Outcome) *luaEnv {
 		noDefaultNode: x.Shards > 0,
 		// clusterClient.Close closes every node connection on a goroutine of its own, and the pool locks they take are
 		// numbered in the order cluster._refresh created the multiplexers (Go map order): the close phase of a cluster
-		// client cannot be replayed, so there is none (the bubble ends with the client's goroutines blocked)
-		noClose: x.Shards > 0,
+		// client cannot be replayed; the event-log hash is taken at the end of the workload phase
+		hashMainPhase: x.Shards > 0,
 		beforeClient: func(e *env) {
 			le.env = e
 			s := e.sim
 			s.Cfg.TickEpsilon = time.Nanosecond // see sched.Config
+			// queue hand-off yields are identified by task and connection, wires of the cluster client by the registry of
+			// multiplexers: two tasks running the same script send commands that agree in their first 48 bytes, and
+			// ExecMulti sends one SCRIPT LOAD to several nodes at once
+			richIdent.Store(true)
 			muxRegReset(16) // every multiplexer: at least as many workers as wires/nodes (fewer = Go map order decides)
 			if x.Shards > 0 {
 				luaClusterSetup(s.W, x.Shards, x.Replicas)
